@@ -202,7 +202,7 @@ def check_cases(ctx, cases):
         lines = ["Definition U : list N := %s." % UNIVERSE]
         for i in part:
             ss = cq([[ord(ch) for ch in s] for s in cases[i]["strings"]])
-            lines.append("Eval vm_compute in (let r := translate U %s in map (re_matches r) %s)." % (_coq_p(cases[i]["ast"]), ss))
+            lines.append("Eval vm_compute in (let r := py_translate U %s in map (re_matches r) %s)." % (_coq_p(cases[i]["ast"]), ss))
         srcs.append("From PFL Require Import Eval.FA.\n" + "\n".join(lines) + "\n")
     outs = ctx.coq(srcs)
     mvs = {}
